@@ -4,7 +4,7 @@ import os
 import vlib
 
 PROP = "C07"
-PROPS_FILES = ["Nic/Props/C07.lean", "Nic/Props/TieNames.lean"]
+PROPS_FILES = ["Nic/Props/C07.lean", "Nic/Props/C07Tmpl.lean", "Nic/Props/TieNames.lean"]
 # Go functions translated from /repo on every run (tools/gofn) and proved equal to the model in the Tie file above
 TIE_FUNCS = ['internal/configs/configurator.go:keyToFileName', 'internal/configs/configurator.go:objectMetaToFileName', 'internal/configs/configurator.go:generateNamespaceNameKey', 'internal/configs/configurator.go:getFileNameForVirtualServer', 'internal/configs/configurator.go:getFileNameForTransportServer', 'internal/configs/configurator.go:getFileNameForVirtualServerFromKey', 'internal/configs/configurator.go:getFileNameForTransportServerFromKey', 'internal/configs/virtualserver.go:NewUpstreamNamerForVirtualServer', 'internal/configs/virtualserver.go:NewUpstreamNamerForVirtualServerRoute', 'internal/configs/virtualserver.go:upstreamNamer.GetNameForUpstream', 'internal/configs/virtualserver.go:upstreamNamer.GetNameForUpstreamFromAction', 'internal/configs/virtualserver.go:NewVSVariableNamer', 'internal/configs/virtualserver.go:rfc1123ToSnake', 'internal/configs/virtualserver.go:type upstreamNamer', 'internal/configs/virtualserver.go:type VariableNamer', 'internal/configs/virtualserver.go:generateStatusMatchName', 'internal/configs/virtualserver.go:generateErrorPageName', 'internal/configs/configurator.go:appProtectDosPolicyFileName']
 HARNESS = "vh-k8s"
